@@ -12,6 +12,7 @@ import (
 	"math/big"
 	"sort"
 	"strings"
+	"time"
 
 	ledgerpkg "github.com/xuperchain/xupercore/bcs/ledger/xledger/ledger"
 	"github.com/xuperchain/xupercore/bcs/ledger/xledger/state/utxo"
@@ -121,7 +122,7 @@ func (nm *NodeMachine) noteKeys(prog []Ins, self string) {
 // program over the node's live XMReader (pool submissions), otherwise over the model reader.
 func (nm *NodeMachine) buildOn(spec *TxSpec, s *MState, live bool) (*pb.Transaction, *PreExecResult) {
 	var pre *PreExecResult
-	if len(spec.Prog) > 0 {
+	if spec.IsContract() {
 		cname := spec.Contract
 		if cname == "" {
 			cname = VerifContract
@@ -253,6 +254,102 @@ func (nm *NodeMachine) Apply(op NOp) error {
 		nm.Stat["mine"]++
 		if len(pristine) > 1 {
 			nm.Stat["mine-with-pool"]++
+		}
+	case "minereal":
+		// the node's own block through the real Miner.packBlock (award, timer tx, pool order)
+		if nm.Ptr != m.Tip {
+			nm.LastOutcome = "skipped"
+			return nil
+		}
+		parent := nm.Ptr
+		height := m.Blocks[parent].Height + 1
+		nm.LM.Ts++
+		if err := nm.CheckPoolGraph(); err != nil {
+			return err
+		}
+		for i := 0; i < 3; i++ { // map iteration order differs from call to call
+			order, err := n.State.GetUnconfirmedTx(false)
+			if err != nil {
+				return fmt.Errorf("GetUnconfirmedTx: %v", err)
+			}
+			if err := nm.samePoolSet(order); err != nil {
+				return err
+			}
+			if err := orderApplies(nm.States[parent], order, nm.ledgerHeight()); err != nil {
+				return fmt.Errorf("the order yielded by the pool is not executable: %v", err)
+			}
+		}
+		blk, err := n.Miner.VerifPackBlock(n.Ctx, height, time.Unix(0, nm.LM.Ts*1000000), nil)
+		if err != nil {
+			return fmt.Errorf("packBlock: %v", err)
+		}
+		if ok, _ := n.Ledger.VerifyBlock(blk, ""); !ok {
+			return fmt.Errorf("VerifyBlock refuses the block the node packed")
+		}
+		ncb := 0
+		for i, tx := range blk.Transactions {
+			if !n.Ledger.IsValidTx(i, tx, blk) {
+				return fmt.Errorf("IsValidTx refuses transaction %d of the block the node packed", i)
+			}
+			if tx.Coinbase {
+				ncb++
+				if i != 0 {
+					return fmt.Errorf("coinbase at position %d of the packed block", i)
+				}
+			}
+			if tx.Autogen && i != 1 {
+				return fmt.Errorf("timer transaction at position %d of the packed block", i)
+			}
+		}
+		if ncb != 1 {
+			return fmt.Errorf("packed block has %d coinbase transactions", ncb)
+		}
+		if aw := new(big.Int).SetBytes(blk.Transactions[0].TxOutputs[0].Amount); aw.Cmp(n.Ledger.GenesisBlock.CalcAward(height)) != 0 {
+			return fmt.Errorf("packed block awards %s, CalcAward(%d)=%s", aw, height, n.Ledger.GenesisBlock.CalcAward(height))
+		}
+		pristine := CloneTxs(blk.Transactions)
+		var general []*pb.Transaction
+		for _, tx := range pristine {
+			if !tx.Coinbase && !tx.Autogen {
+				general = append(general, tx)
+			}
+		}
+		if err := nm.samePoolSet(general); err != nil {
+			return fmt.Errorf("packed block: %v", err)
+		}
+		prop := Ring[MinerKey]
+		ns := nm.States[parent].Clone()
+		for i, tx := range pristine {
+			if !tx.Coinbase && !tx.Autogen {
+				if err := ns.Check(tx, nm.ledgerHeight()); err != nil {
+					return fmt.Errorf("packed block %s: transaction %d (%s) is not executable after its predecessors: %v", op.Label, i, Hex8(tx.Txid), err)
+				}
+			}
+			if tx.Autogen {
+				nm.Stat["timer-tx-in-block"]++
+			}
+			ns.Apply(tx, prop.Address)
+		}
+		stored, err := nm.LM.ConfirmPrepared(op.Label, parent, blk, false)
+		if err != nil {
+			return err
+		}
+		if !stored {
+			return fmt.Errorf("own block %s was not stored", op.Label)
+		}
+		idx := len(m.Blocks) - 1
+		nm.BlockTxs[idx] = pristine
+		nm.States[idx] = ns
+		nm.Valid[idx] = true
+		if err := n.State.PlayForMiner(blk.Blockid); err != nil {
+			return fmt.Errorf("PlayForMiner(%s): %v", op.Label, err)
+		}
+		nm.Ptr = idx
+		nm.Pool = nil
+		nm.applied(idx)
+		nm.Stat["minereal"]++
+		if len(general) > 1 {
+			nm.Stat["minereal-pool>=2"]++
 		}
 	case "peer":
 		parent := op.Parent
@@ -455,6 +552,121 @@ func (nm *NodeMachine) DeepKeyHistory() bool {
 		}
 	}
 	return false
+}
+
+// PendingTimerFor: does a pending transaction register a timer task for the given height? (trigger
+// shape of finding C13-timer-tx-sees-pending-task)
+func (nm *NodeMachine) PendingTimerFor(height int64) bool {
+	for _, tx := range nm.Pool {
+		for _, r := range tx.ContractRequests {
+			if r.ContractName == "$timer_task" && r.MethodName == "Add" && string(r.Args["block_height"]) == fmt.Sprint(height) {
+				return true
+			}
+		}
+	}
+	return false
+}
+
+// orderApplies: do the transactions apply validly on base in exactly this order?
+func orderApplies(base *MState, txs []*pb.Transaction, h int64) error {
+	s := base.Clone()
+	for i, tx := range txs {
+		if err := s.Check(tx, h); err != nil {
+			return fmt.Errorf("position %d (%s): %v; order %s", i, Hex8(tx.Txid), err, txList(txs))
+		}
+		s.Apply(tx, "")
+	}
+	return nil
+}
+
+// MustPrecede lists the ordered pairs (a, b) of pending transactions for which the model requires a
+// before b: b consumes an output or a key version produced by a, or a merely read a key version
+// that b overwrites.
+func (nm *NodeMachine) MustPrecede() (pairs [][2]*pb.Transaction, anti int) {
+	writes := func(tx *pb.Transaction, bucket string, key []byte) bool {
+		for _, o := range tx.TxOutputsExt {
+			if o.Bucket == bucket && bytes.Equal(o.Key, key) {
+				return true
+			}
+		}
+		return false
+	}
+	for _, a := range nm.Pool {
+		for _, b := range nm.Pool {
+			if a == b {
+				continue
+			}
+			need := false
+			for _, ti := range b.TxInputs {
+				if bytes.Equal(ti.RefTxid, a.Txid) {
+					need = true
+				}
+			}
+			for _, ie := range b.TxInputsExt {
+				if bytes.Equal(ie.RefTxid, a.Txid) {
+					need = true
+				}
+			}
+			isAnti := false
+			for _, ia := range a.TxInputsExt {
+				if writes(a, ia.Bucket, ia.Key) {
+					continue
+				}
+				for _, ib := range b.TxInputsExt {
+					if ib.Bucket == ia.Bucket && bytes.Equal(ib.Key, ia.Key) && bytes.Equal(ib.RefTxid, ia.RefTxid) && ib.RefOffset == ia.RefOffset && writes(b, ib.Bucket, ib.Key) {
+						isAnti = true
+					}
+				}
+			}
+			if isAnti {
+				anti++
+			}
+			if need || isAnti {
+				pairs = append(pairs, [2]*pb.Transaction{a, b})
+			}
+		}
+	}
+	return pairs, anti
+}
+
+// CheckPoolGraph (C13): in the dependency graph the pool builds there must be a path a -> b for
+// every pair the model orders; then no map iteration order lets the topological sort emit b first.
+func (nm *NodeMachine) CheckPoolGraph() error {
+	_, graph, err := nm.N.State.VerifSortUnconfirmedTx()
+	if err != nil {
+		return fmt.Errorf("SortUnconfirmedTx: %v", err)
+	}
+	pairs, anti := nm.MustPrecede()
+	if anti > 0 {
+		nm.Stat["pool-with-anti-dependency"]++
+	}
+	if len(pairs) >= 3 {
+		nm.Stat["pool-with>=3-ordered-pairs"]++
+	}
+	for _, p := range pairs {
+		seen := map[string]bool{}
+		stack := []string{string(p[0].Txid)}
+		found := false
+		for len(stack) > 0 && !found {
+			x := stack[len(stack)-1]
+			stack = stack[:len(stack)-1]
+			if seen[x] {
+				continue
+			}
+			seen[x] = true
+			for _, y := range graph[x] {
+				if y == string(p[1].Txid) {
+					found = true
+					break
+				}
+				stack = append(stack, y)
+			}
+		}
+		if !found {
+			return fmt.Errorf("pool dependency graph has no path %s -> %s although the model requires that order (%s before %s)", Hex8(p[0].Txid), Hex8(p[1].Txid), DescribeTx(p[0]), DescribeTx(p[1]))
+		}
+	}
+	return nil
 }
 
 // blockTxsSorted returns the per-block transaction lists in block-index order.
